@@ -75,6 +75,8 @@ def build(ck):
                 continue
             if want(f"inject3d/N{N}/k{k}"):
                 _inject3d(ck, N, k)
+    if want("hazard"):
+        _float_hazard_sizes(ck)
     if want("closure"):
         _closure2d(ck, 6, 1)
         _closure3d(ck, 6, 1)
@@ -114,6 +116,32 @@ def _inject3d(ck, N, k):
         enc.validate(ck, what=tag, max_components=6)
         L, g = ins[0].s, ins[1].s
         enc.compare(ck, tag, 0, doc_force_3d(N, k, g), [L > 0], family=f"injected field 3D/{nm}")
+
+
+def _float_hazard_sizes(ck):
+    """concrete enumeration (not a solver verdict): grid sizes at which N * fl(1/N) != 1 in float64 (49, 98, 103, 107, ...),
+    where a wavenumber table built as fftfreq(N, 1/N) is not integer-valued: the forced mode must still be found.
+    The symbolic obligations use small N only and cannot see such sizes."""
+    import math
+
+    haz = [n for n in range(8, 128) if float(n) * (1.0 / n) != 1.0][:3] + [64]
+    fam = "forcing at float-hazard grid sizes (concrete enumeration)"
+    L, g, k = 3.0, 0.7, 2
+    for N in haz:
+        # 2D vorticity forcing: -k (2 pi / L) gamma cos(2 pi k y / L) in the documented sign convention of doc_force_2d at rest
+        nf2 = NF.VorticityConvection2dKolmogorov(2, N, injection_mode=k, injection_scale=g, derivative_operator=_do(L, 2, N), dealiasing_fraction=2 / 3)
+        h2 = np.asarray(nf2(jnp.zeros((1, N, N // 2 + 1), jnp.complex128)))
+        amp2 = float(2 * np.abs(h2[0, 0, k]) / N**2) if np.count_nonzero(np.abs(h2) > 1e-9 * N**2) == 1 else float("nan")
+        want2 = k * (2 * math.pi / L) * g
+        ck.add(f"hazard/2d/N{N}", bool(abs(amp2 - want2) <= 1e-9 * want2), [], family=fam,
+               replay=lambda m, N=N, amp2=amp2, want2=want2: {"reproduced": True, "detail": f"2D Kolmogorov forcing at rest, N={N}, L={L}, k={k}, gamma={g}: amplitude {amp2!r}, documented {want2!r}"})
+        if N <= 64:
+            nf3 = NF.ProjectedConvection3dKolmogorov(3, N, injection_mode=k, injection_scale=g, derivative_operator=_do(L, 3, N), dealiasing_fraction=2 / 3)
+            h3 = np.asarray(nf3(jnp.zeros((3, N, N, N // 2 + 1), jnp.complex128)))
+            amp3 = float(2 * np.abs(h3[0, 0, k, 0]) / N**3) if np.count_nonzero(np.abs(h3[0]) > 1e-9 * N**3) == 2 else float("nan")  # modes (0, +-k, 0)
+            rest = float(max(np.max(np.abs(h3[1])), np.max(np.abs(h3[2]))) / N**3)
+            ck.add(f"hazard/3d/N{N}", bool(abs(amp3 - g) <= 1e-9 * g and rest <= 1e-12), [], family=fam,
+                   replay=lambda m, N=N, amp3=amp3, rest=rest: {"reproduced": True, "detail": f"3D Kolmogorov forcing at rest, N={N}, k={k}, gamma={g}: amplitude of the forced channel {amp3!r} (documented {g}), other channels {rest!r}"})
 
 
 def _forced_state_2d(N, k, s):
